@@ -102,6 +102,23 @@ def leaf(job, api, want):
     gates = ztab.gates_of(qc)
     info["models"] = ctx.model_count()
     info["gates"] = len(gates)
+    # translator validation on a sample of leaves: the NATIVE library (machine integers, real NumPy) on a model of the
+    # path must return the same gate list as the instrumented copy
+    if (hash(tuple((g, tuple(q)) for g, q in gates)) % 6) == 0 or job.get("validate_all"):
+        env = ctx.model_env()
+        Rm, Sm = spec.env_tableau(X, Z, env)
+        pm = [int(evaluate(l, env)) for l in signs]
+        try:
+            ns = loader.native("stabilizer").Stabilizer((np.array(Rm, dtype=np.int8), np.array(Sm, dtype=np.int8), np.array(pm, dtype=np.int8)))
+            nsc = loader.native("stabilizer_circuits")
+            nqc = nsc.get_preparation_circuit(ns, conn) if api == "prep" else nsc.get_readout_circuit(ns, conn)
+            same = ztab.gates_of(nqc) == gates
+        except EXC as e:
+            same = False
+        # only meaningful when the path pins the input (prep) or for the chosen model (readout): compare on the model
+        fixed = land_all([leq(X[q][g], Rm[q][g]) for q in range(n) for g in range(n)] + [leq(Z[q][g], Sm[q][g]) for q in range(n) for g in range(n)])
+        ctx.prove("native library and instrumented copy agree on a model of this path (translator validation)", lor(fixed ^ 1, 1 if same else 0), info=dict(tv=True))
+        info["tv"] = 1
     info["sig"] = hash(tuple((g, tuple(q)) for g, q in gates)) & 0xFFFFFFFF
     if qc.num_qubits != n:
         ctx.prove("returned circuit has %d qubits, expected %d" % (qc.num_qubits, n), 0)
@@ -230,8 +247,9 @@ def run_job(arg):
     sigs = sorted(set(l.get("sig", 0) for l in res.leaves))
     costs = sorted(set(l.get("cost") for l in res.leaves if l.get("cost") is not None))
     sample = res.leaves[:1]
+    tv = sum(1 for l in res.leaves if l.get("tv"))
     res.leaves = []
-    return dict(res=res.to_json(), tt=res.tt_decisions, cands=cands, nviol=nviol, sigs=sigs[:2000], nsigs=len(sigs), costs=costs, sample=sample)
+    return dict(res=res.to_json(), tt=res.tt_decisions, tv=tv, cands=cands, nviol=nviol, sigs=sigs[:2000], nsigs=len(sigs), costs=costs, sample=sample)
 
 
 # ------------------------------------------------------------------------------------------------ job lists
